@@ -503,6 +503,8 @@ def artefacts(run, p, fc):
              ('substring-and-a-real-change', 'alpha\nbeta 12 ms\nsomething\nDELTA\n', {'ignore_substrings': ['gamma']}, False, [3]),
              ('removed-line-and-a-real-change', 'alpha\nSKIP this\nbeta 12 ms\ngamma ray\nDELTA\n', {'remove_lines': ['SKIP']}, False, [4]),
              ('stripped-and-a-real-change', '  alpha\nbeta 12 ms\ngamma ray\nDELTA\n', {'lstrip': True}, False, [3]),
+             ('trailing-blanks-stripped-and-a-real-change', 'alpha\nbeta 12 ms  \ngamma ray\nDELTA\n', {'rstrip': True}, False, [3]),
+             ('stripped-with-a-substring-and-a-real-change', '   alpha\nbeta 12 ms\nsomething\nDELTA\n', {'lstrip': True, 'ignore_substrings': ['gamma']}, False, [3]),
              ('line-missing', 'alpha\nbeta 12 ms\ngamma ray\n', {}, False, None),
              ('empty-actual', '', {}, False, None),
              ('no-final-newline', 'alpha\nbeta 12 ms\ngamma ray\nDELTA', {}, False, [3]),
@@ -573,11 +575,15 @@ def artefacts(run, p, fc):
                     elif got is not None and got.rstrip('\n') != actual.rstrip('\n'):
                         probs.append('the file given as actual holds %r, the actual string was %r' % (got[:60], actual[:60]))
                 excl = any(k in kw for k in ('ignore_patterns', 'ignore_substrings', 'remove_lines'))
-                if excl and badlines is not None and len(cmds) >= 2:
+                strip_ = any(k in kw for k in ('lstrip', 'rstrip'))       # blanks excused: a post-processed pair is offered by some entry points only
+                if (excl or strip_) and badlines is not None and len(cmds) >= 2:
                     pa, pe = fs.files.get(cmds[-1][0], ''), fs.files.get(cmds[-1][1], '')
                     la, le = pa.split('\n'), pe.split('\n')
                     diff = [(x, y) for x, y in zip(la, le) if x != y]
                     want = [(actual.split('\n')[i], ref.split('\n')[i - (1 if 'remove_lines' in kw else 0)]) for i in badlines]
+                    if strip_:
+                        diff = [(x.strip(), y.strip()) for x, y in diff if x.strip() != y.strip()] + [(x, y) for x, y in diff if x.strip() == y.strip()]
+                        want = [(x.strip(), y.strip()) for x, y in want]
                     if len(la) != len(le) or diff != want:
                         probs.append('the post-processed pair differs on %r, the unexcused differences are %r' % (diff[:3], want))
                 elif excl and badlines is not None:
@@ -592,6 +598,31 @@ def artefacts(run, p, fc):
             run.ob('C15-ARTEFACTS', '%s:%s' % (entry, name), not probs,
                    '%s, %s: %s' % (entry, name, '; '.join(probs[:2]) or ('nothing written' if passes else 'artefacts %s' % sorted(fs.written))),
                    fn=fc.methods[entry])
+    # history: a failing comparison after an earlier, longer failure under the same names leaves nothing of the earlier one behind
+    for entry in ('check_string_against_file', 'check_file'):
+        long_ = 'alpha\nbeta 12 ms\ngamma ray\nDELTA\n' + ''.join('STALE line %d of the earlier failure\n' % i for i in range(40))
+        short_ = 'alpha\nBETA\n'
+        files = {'/ref/out.txt': ref}
+        for actual in (long_, short_):
+            if entry == 'check_file':
+                files['/w/out.txt'] = actual
+                args = ['/w/out.txt', '/ref/out.txt']
+            else:
+                args = [actual, '/ref/out.txt']
+            failures, msg, fs = _run_cmp(p, fc, entry, args, {'ignore_patterns': [r'\d+']}, files)
+            files = dict(fs.files)
+        n += 1
+        probs = []
+        if failures is None:
+            probs.append(msg)
+        else:
+            for q in sorted(fs.written):
+                c_ = fs.files.get(q) or ''
+                if 'STALE' in (c_ if isinstance(c_, str) else c_.decode('utf-8', 'replace')):
+                    probs.append('%s still holds lines of the earlier, longer failure after the second comparison wrote it' % q)
+        run.ob('C15-ARTEFACTS', '%s:after-an-earlier-longer-failure' % entry, not probs,
+               '%s twice under the same names, the second actual shorter: %s' % (entry, '; '.join(probs[:2]) or 'every artefact written the second time holds the second content only'),
+               fn=fc.methods[entry])
     # several pairs through check_files share one message object: what is written and named for one pair is that pair's content
     pairs = {'one': ('alpha\nbeta 977 ms\ngamma ray\nDELTA\n', ref), 'two': ('uno\nDOS\ntres\n', 'uno\ndos\ntres\n'),
              'three': ('red\ngreen 5 ms\nBLUE\n', 'red\ngreen 71 ms\nblue\n')}
@@ -631,4 +662,4 @@ def artefacts(run, p, fc):
                'check_files over the pairs %s (one message object): %s' % (', '.join(order), '; '.join(probs[:2]) or 'every artefact holds lines of its own pair only: %s' % sorted(fs.written)),
                fn=fc.methods['check_files'])
     n += binary_cases(run, p, fc)
-    run.floor('C15-ARTEFACTS', n, 44)
+    run.floor('C15-ARTEFACTS', n, 50)
